@@ -186,8 +186,9 @@ impl fmt::Display for CssString {
             } else if is_private_use(c) {
                 write!(out, "\\{:x}", c as u32)?;
                 // A following hex digit or space would be read as a
-                // part of the escape.
-                if chars.peek().is_some_and(|n| {
+                // part of the escape.  After an unquoted string, that
+                // may be whatever is written next.
+                if chars.peek().map_or(q.is_none(), |n| {
                     n.is_ascii_hexdigit() || *n == ' ' || *n == '\t'
                 }) {
                     out.write_char(' ')?;
